@@ -650,7 +650,7 @@ def run(tier: str, seed: int) -> Tuple[Stats, str, List[str], Dict[str, Any]]:
         reps.setdefault(f"{kind}/{oc}", d)
     pairs = [([("a", a), ("b", b)], 0) for a, b in itertools.permutations(list(reps.values()), 2)]
     for (c, v), (problem, oc) in zip(pairs, pmap_iter(guarded_problem(run_stream), pairs, chunk=16)):
-        record(problem, "pair:" + oc.split(":")[1], {"mode": "stream", "variant": 0, "chunk": [d for _, d in c], "n": 2,
+        record(problem, "pair:" + oc.split(":")[-1], {"mode": "stream", "variant": 0, "chunk": [d for _, d in c], "n": 2,
                                                      "what": "ordered pair of class representatives"})
     sizes["pairs"] = len(pairs)
     stats.states = len(stats.outcomes)
